@@ -861,7 +861,7 @@ func (w *aWorld) anchorHonest(st *refmodel.State, party string) {
 	// rarely the controller commits its next update key to the key that is also its current recovery key
 	// (the two chains are independent; only create/recover refuse EQUAL update and recovery commitments)
 	if typ == operation.TypeUpdate && p.delta == refmodel.DeltaOK && T.Draw(15, "honest.sharedkey") == 0 {
-		if rk := w.byCommit[st.RecoveryC]; rk != nil {
+		if rk := w.byCommit[st.RecoveryC]; rk != nil && st.RecoveryC != st.UpdateC && rk != p.key {
 			p.nextUpd = rk
 			w.k.Count("probe:update-key-equals-recovery-key")
 		}
